@@ -147,3 +147,41 @@ for _s in ("stdin", "stdout", "stderr"):
         ensures_exc={"a-rejected-store-changes-nothing-and-closes-the-new-handle": "%s == old(%s) and len(log('close-rejected')) == 1" % (_f, _f)},
         from_property="conflicting ... redirects are reported as errors rather than silently misrouted",
     )
+
+
+# ---- one stage's own redirects: applied in order through the real setters; two redirects of one stream are an error -----------
+REDIR = Opaque("redirect")          # a ('>', 'file') / ('e>o',) tuple of the parsed command
+STAGE = Obj("SubprocSpec", _stdin=H, _stdout=H, _stderr=H, cmd=List(Union(Str, REDIR)))
+RR_EXT = dict(EXT)
+RR_EXT.update({
+    "_redirect_streams": Ext(ret=Tuple(H, H, H), pure=True, uf="streams_of", raises=["XonshError", "Exception+"],
+                             note="decodes one redirect into (stdin, stdout, stderr) handles - the spelling enum checks WHICH; may fail (missing file, malformed)"),
+    "streams_of": Ext(ret=Tuple(H, H, H), pure=True, uf="streams_of"),
+})
+CLASH = "exists(lambda j, k: j < k and streams_of(redirects[j])[%d] is not None and streams_of(redirects[k])[%d] is not None, 0, len(redirects))"
+FIRST = ("(forall(lambda j: streams_of(redirects[j])[%(i)d] is None, 0, %(n)s) and %(f)s is None) or "
+         "exists(lambda j: streams_of(redirects[j])[%(i)d] is not None and %(f)s == streams_of(redirects[j])[%(i)d] and "
+         "forall(lambda m: implies(m != j, streams_of(redirects[m])[%(i)d] is None), 0, %(n)s), 0, %(n)s)")
+contract(
+    S + "SubprocSpec.resolve_redirects", "C07", params=dict(self=STAGE), externals=RR_EXT,
+    config={"properties": {"SubprocSpec": ["stdin", "stdout", "stderr"]}, "isinstance": {"tuple": ["redirect"]}},
+    locals={"new_cmd": List(Str), "redirects": List(REDIR), "streams": Tuple(H, H, H)},
+    requires={"a-fresh-stage": "self._stdin is None and self._stdout is None and self._stderr is None"},
+    modifies=["self", "self.cmd"],
+    loops={
+        "for#1": dict(invariant={"splitting-words-from-redirects": "True"}, havoc_only=["new_cmd", "redirects"]),
+        "for#2": dict(invariant={
+            "each-stream-holds-its-only-redirect-so-far-stdin": FIRST % dict(i=0, n="_i", f="self._stdin"),
+            "each-stream-holds-its-only-redirect-so-far-stdout": FIRST % dict(i=1, n="_i", f="self._stdout"),
+            "each-stream-holds-its-only-redirect-so-far-stderr": FIRST % dict(i=2, n="_i", f="self._stderr")},
+            havoc_only=[], havoc_shallow=["self"]),
+    },
+    raises={"XonshError": True, "Exception+": True},
+    ensures_locals={
+        "stdin-is-the-one-redirect-that-names-it": FIRST % dict(i=0, n="len(redirects)", f="self._stdin"),
+        "stdout-is-the-one-redirect-that-names-it": FIRST % dict(i=1, n="len(redirects)", f="self._stdout"),
+        "stderr-is-the-one-redirect-that-names-it": FIRST % dict(i=2, n="len(redirects)", f="self._stderr"),
+    },
+    from_property="stdout and stderr end up - completely and only - where the redirect operators say ... conflicting or malformed redirects are reported as errors "
+                  "rather than silently misrouted (a normal return means every stream was named by at most one redirect of the stage, and holds exactly that one)",
+)
